@@ -98,7 +98,7 @@ fn run_prog(w: &World, p: &Sexp) -> Option<()> {
         Sexp::List(_) => {
             let (tag, args) = p.as_tagged()?;
             match tag {
-                "span" | "spant" => {
+                "span" | "spant" | "spana" => {
                     let log = w.log.clone();
                     let emitter = emit::emitter::from_fn(move |evt| {
                         log.lock().unwrap().push(format!("(done {})", ids_of_props(evt.props())));
@@ -115,6 +115,22 @@ fn run_prog(w: &World, p: &Sexp) -> Option<()> {
                         "s",
                         emit::Empty,
                     );
+                    if tag == "spana" {
+                        // an async span: the body yields after every child, so the frame is exited and
+                        // re-entered between children (FrameFuture enters and exits around every poll)
+                        let fut = frame.in_future(async move {
+                            guard.start();
+                            for c in args {
+                                if run_prog(w, c).is_none() {
+                                    return None;
+                                }
+                                YieldOnce(false).await;
+                            }
+                            drop(guard);
+                            Some(())
+                        });
+                        return block_on(fut);
+                    }
                     let body = move || -> Option<()> {
                         guard.start();
                         for c in args {
@@ -180,6 +196,39 @@ fn run_prog(w: &World, p: &Sexp) -> Option<()> {
     }
 }
 
+struct YieldOnce(bool);
+impl std::future::Future for YieldOnce {
+    type Output = ();
+    fn poll(mut self: std::pin::Pin<&mut Self>, _: &mut std::task::Context<'_>) -> std::task::Poll<()> {
+        if self.0 {
+            std::task::Poll::Ready(())
+        } else {
+            self.0 = true;
+            std::task::Poll::Pending
+        }
+    }
+}
+
+fn block_on<F: std::future::Future>(f: F) -> F::Output {
+    use std::task::{Context, Poll, RawWaker, RawWakerVTable, Waker};
+    fn raw() -> RawWaker {
+        fn no(_: *const ()) {}
+        fn clone(_: *const ()) -> RawWaker {
+            raw()
+        }
+        static VT: RawWakerVTable = RawWakerVTable::new(clone, no, no, no);
+        RawWaker::new(std::ptr::null(), &VT)
+    }
+    let waker = unsafe { Waker::from_raw(raw()) };
+    let mut cx = Context::from_waker(&waker);
+    let mut f = std::pin::pin!(f);
+    loop {
+        if let Poll::Ready(v) = f.as_mut().poll(&mut cx) {
+            return v;
+        }
+    }
+}
+
 fn run(line: &str) -> String {
     (|| -> Option<String> {
         let s = Sexp::parse(line)?;
@@ -238,7 +287,8 @@ fn gen_prog(rng: &mut Rng, depth: usize, budget: &mut usize) -> Sexp {
     let n = rng.usize(4);
     let mut cs: Vec<Sexp> = (0..n).map(|_| gen_prog(rng, depth - 1, budget)).collect();
     match rng.below(10) {
-        0..=4 => Sexp::tagged("span", cs),
+        0..=3 => Sexp::tagged("span", cs),
+        4 => Sexp::tagged("spana", cs),
         5 => Sexp::tagged("spant", cs),
         6 => Sexp::tagged("carry", cs),
         _ => {
